@@ -373,9 +373,12 @@ def gen_cases(tier):
                 if qs.count("u") + rs.count("u") > 1:
                     continue
                 fl = sorted(set(used))
-                for kind in kinds:
-                    unwrap = {"p": [kind, rootspec], "q": ["tuple", qs], "r": ["list", rs],
-                              "s": ["tuple", ["E", "F"]], "t": None, "u": ["tuple", ["D"]]}
+                # sub-items with exactly one child are also tried as a bare (non-sequence) unwrap result
+                qkinds = ["tuple", "one"] if len(qs) == 1 and qs[0] is not None else ["tuple"]
+                rkinds = ["list", "one"] if len(rs) == 1 and rs[0] is not None else ["list"]
+                for kind, qkind, rkind in itertools.product(kinds, qkinds, rkinds):
+                    unwrap = {"p": [kind, rootspec], "q": [qkind, qs], "r": [rkind, rs],
+                              "s": ["tuple", ["E", "F"]], "t": None, "u": ["one", ["D"]]}
                     for especs in itertools.product(specs, repeat=len(fl)):
                         touches = any(e is not None and e[0] != "prune" and e[0] != "emptylist" for e in especs)
                         for ee in (ins_opts if touches else [None]):
